@@ -108,7 +108,9 @@ pub fn run(n: usize, judgements: &[(usize, J)], plan: &Plan) -> (Outcome, Vec<Or
         for (v, j) in judgements {
             state.infer(vars[*v], to_te(j, &vars));
         }
-        let w = CountingWatchdog::with_deadline(1, Some(BUDGET), 3);
+        // the budget of the small sets, scaled for sets over many variables (rounds x classes grows with the square)
+        let scale = (n as u64 / 15).max(1);
+        let w = CountingWatchdog::with_deadline(1, Some(BUDGET * scale * scale), 3 + n as u64 / 20);
         let dw: sle::watchdog::DynWatchdog = w.clone();
         match unify(&mut state, &dw) {
             Ok(()) => {}
